@@ -563,6 +563,9 @@ func ruleStructUntouched(c *Ctx) {
 				}
 			case *ssa.Call:
 				cc := x.Common()
+				if bi, isBI := cc.Value.(*ssa.Builtin); isBI && bi.Name() == "Add" {
+					continue // unsafe.Add(ptr, off): address arithmetic, the result is followed as a pointer into the target
+				}
 				for _, a := range cc.Args {
 					if r := rootOf(a); r.base == ssa.Value(ptr) && isUnsafePointer(a.Type()) {
 						n++
@@ -992,12 +995,32 @@ func clearLoopCoversNewLen(f *ssa.Function, header *ssa.BasicBlock, hdr ssa.Valu
 		return false
 	}
 	cmp, ok := iff.Cond.(*ssa.BinOp)
-	if !ok || cmp.Op != token.LSS {
+	if !ok || (cmp.Op != token.LSS && cmp.Op != token.NEQ) {
 		return false
 	}
 	phi, ok := cmp.X.(*ssa.Phi)
 	if !ok || phi.Block() != header {
 		return false
+	}
+	if cmp.Op == token.NEQ {
+		// i != n counts up to n only in steps of one
+		for i, e := range phi.Edges {
+			if !header.Dominates(header.Preds[i]) {
+				continue
+			}
+			bo, isBO := e.(*ssa.BinOp)
+			one := false
+			if isBO && bo.Op == token.ADD && bo.X == ssa.Value(phi) {
+				if k, isK := bo.Y.(*ssa.Const); isK {
+					if v, okv := constBig(k); okv && v.IsInt64() && v.Int64() == 1 {
+						one = true
+					}
+				}
+			}
+			if !one {
+				return false
+			}
+		}
 	}
 	// initial value 0 on the entry edge, +1 on the back edge
 	zeroInit := false
